@@ -127,8 +127,8 @@ window_once = ("first_iMCU_col = 0" in re.sub(r"\s+", " ", ms_body)) and not re.
 # jpeg_skip_scanlines: the bottom clamp leaves the input controller alone in buffered-image mode;
 # jpeg_crop_scanline: output_scanline is only tested in DSTATE_SCANNING
 ja_nc = re.sub(r"/\*.*?\*/", "", ja, flags=re.S)
-clamp_guard = bool(re.search(r"cinfo->output_scanline\s*=\s*cinfo->output_height;\s*if\s*\(!cinfo->buffered_image\)\s*\{\s*\(\*cinfo->inputctl->finish_input_pass\)\s*\(cinfo\);\s*cinfo->inputctl->eoi_reached\s*=\s*TRUE;\s*\}", ja))
-crop_state_ok = bool(re.search(r"cinfo->global_state\s*==\s*DSTATE_SCANNING\s*&&\s*cinfo->output_scanline\s*!=\s*0", ja))
+clamp_guard = bool(re.search(r"cinfo->output_scanline\s*=\s*cinfo->output_height;\s*if\s*\(!cinfo->buffered_image\)\s*\{\s*\(\*cinfo->inputctl->finish_input_pass\)\s*\(cinfo\);\s*cinfo->inputctl->eoi_reached\s*=\s*TRUE;\s*\}", ja_nc))
+crop_state_ok = bool(re.search(r"cinfo->global_state\s*==\s*DSTATE_SCANNING\s*&&\s*cinfo->output_scanline\s*!=\s*0", ja_nc))
 if "eoi_reached = TRUE" not in ja:
     die("jdapistd.c: jpeg_skip_scanlines no longer marks the end of input at the bottom clamp")
 
